@@ -59,9 +59,9 @@ APIS = ["text", "pages", "fp_text", "fp_xml"]
 def minimums(tier: str) -> Dict[str, int]:
     if tier == "quick":
         return {"evaluations": 4000, "distinct": 150, "calls_compared": 4000, "fingerprint_checks": 4000, "interleaved_pages": 300,
-                "seen:docs_used": 37, "page_at_a_time_calls": 300, "caching_off_calls": 800}
+                "seen:docs_used": 44, "page_at_a_time_calls": 300, "caching_off_calls": 800, "group_round_robins": 16}
     return {"evaluations": 100000, "distinct": 3000, "calls_compared": 90000, "fingerprint_checks": 90000, "interleaved_pages": 8000,
-            "seen:docs_used": 37, "page_at_a_time_calls": 9000, "caching_off_calls": 25000}
+            "seen:docs_used": 44, "page_at_a_time_calls": 9000, "caching_off_calls": 25000, "group_round_robins": 16}
 
 
 # --------------------------------------------------------------------------
@@ -301,7 +301,50 @@ def build_pool() -> List[Dict[str, Any]]:
     add("twin-rc4", tw.build(encryptor=enc), "enc:WinAnsiEncoding")
     tw = _simple_doc(dict(helv, Encoding=N("WinAnsiEncoding")), t2)
     enc = StdEncryptor(4, 4, 128, "AESV2", b"user", b"owner", -1852, random.Random(1202), id0=b"fedcba9876543210", id1=b"fedcba9876543210")
-    add("twin-aes", tw.build(encryptor=enc), "enc:WinAnsiEncoding", password="user")
+    add("twin-aes", tw.build(encryptor=enc), "crypt-v4", password="user")
+    # an incremental update that replaces a page dictionary stored in an OBJECT STREAM of the first revision, the other
+    # members of that stream (catalog, page tree) staying live: the newest definition wins with caching on and off
+    from vf.gen.xrefw import render_history
+    ufont = font_type1("Helvetica")
+    rev0 = {1: {"Type": N("Catalog"), "Pages": Ref(2)}, 2: {"Type": N("Pages"), "Kids": [Ref(3), Ref(7)], "Count": 2},
+            3: {"Type": N("Page"), "Parent": Ref(2), "MediaBox": [0, 0, 300, 300], "Resources": {"Font": {"F1": Ref(4)}}, "Contents": Ref(5)},
+            4: ufont, 5: Stream({}, b"BT /F1 12 Tf 30 200 Td (superseded text) Tj ET"), 6: Stream({}, b"BT /F1 12 Tf 30 200 Td (current text) Tj ET"),
+            7: {"Type": N("Page"), "Parent": Ref(2), "MediaBox": [0, 0, 300, 300], "Resources": {"Font": {"F1": Ref(4)}}, "Contents": Ref(5)}}
+    rev1 = {3: dict(rev0[3], Contents=Ref(6))}
+    uhist = [{"objs": rev0, "root": 1, "info": None}, {"objs": rev1, "root": 1, "info": None}]
+    for useed in range(400):
+        UR = render_history(uhist, random.Random(useed), forms=["stream", "stream"], tail_ws=False)
+        if {(0, 1), (0, 2), (0, 3), (0, 7)} <= UR.packed and (1, 3) not in UR.packed:
+            add("update-replaces-objstm-member", UR.data, "misc")
+            break
+    # two Type0 fonts in two documents with the SAME object numbers and DIFFERENT ToUnicode CMaps
+    for tname, tpairs in (("type0-tounicode-a", [(1, "One"), (2, "Uno")]), ("type0-tounicode-b", [(1, "Two"), (2, "Due")])):
+        td = Doc()
+        tfd = td.add({"Type": N("FontDescriptor"), "FontName": N("TuTwin"), "Flags": 4, "FontBBox": [0, -200, 1000, 800], "ItalicAngle": 0,
+                      "Ascent": 800, "Descent": -200, "CapHeight": 700, "StemV": 80})
+        tcid = td.add({"Type": N("Font"), "Subtype": N("CIDFontType2"), "BaseFont": N("TuTwin"),
+                       "CIDSystemInfo": {"Registry": b"Adobe", "Ordering": b"Identity", "Supplement": 0}, "FontDescriptor": tfd, "DW": 600})
+        ttu = td.add(Stream({}, _tounicode(tpairs, 2)))
+        tf = td.add({"Type": N("Font"), "Subtype": N("Type0"), "BaseFont": N("TuTwin"), "Encoding": N("Identity-H"), "DescendantFonts": [tcid], "ToUnicode": ttu})
+        tpages = [{"content": b"BT /F1 12 Tf 30 %d Td <0001> Tj 0 -20 Td <0002> Tj ET" % y, "resources": {"Font": {"F1": tf}}, "mediabox": [0, 0, 300, 300]} for y in (200, 150)]
+        add(tname, page_doc(tpages, doc=td).build(), "cmap-tounicode")
+    # a valid document with 67000 distinct names (marked-content tags): whatever tables the library keeps per process
+    # (interned names, caches) may fill up or be trimmed, later documents must not notice
+    import zlib as _zlib
+    mbody = b"BT /F1 12 Tf 30 200 Td (many names) Tj ET " + b" ".join(b"/T%x BMC EMC" % i for i in range(67000))
+    add("many-distinct-names", page_doc([{"content": Stream({"Filter": N("FlateDecode")}, _zlib.compress(mbody)),
+                                          "resources": {"Font": {"F1": font_type1("Helvetica")}}, "mediabox": [0, 0, 300, 300]}]).build(), "misc")
+    # more encrypted twins with OTHER keys and crypt filters of the same name (StdCF): iterators over several of them
+    # are interleaved, so each document must keep using its own handler and key
+    tw = _simple_doc(dict(helv, Encoding=N("WinAnsiEncoding")), t2)
+    enc = StdEncryptor(4, 4, 128, "AESV2", b"other", b"boss", -44, random.Random(1204), id0=b"AAAAAAAAAAAAAAAA", id1=b"AAAAAAAAAAAAAAAA")
+    add("twin-aes-otherkey", tw.build(encryptor=enc), "crypt-v4", password="other")
+    tw = _simple_doc(dict(helv, Encoding=N("WinAnsiEncoding")), t2)
+    enc = StdEncryptor(4, 4, 128, "V2", b"", b"own", -4, random.Random(1205), id0=b"BBBBBBBBBBBBBBBB", id1=b"BBBBBBBBBBBBBBBB")
+    add("twin-v4-rc4", tw.build(encryptor=enc), "crypt-v4")
+    tw = _simple_doc(dict(helv, Encoding=N("WinAnsiEncoding")), t2)
+    enc = StdEncryptor(5, 6, 256, "AESV3", b"pw256", b"own256", -4, random.Random(1206), id0=b"CCCCCCCCCCCCCCCC", id1=b"CCCCCCCCCCCCCCCC")
+    add("twin-aes256", tw.build(encryptor=enc), "crypt-v4", password="pw256")
     return pool
 
 
@@ -625,20 +668,31 @@ def run_history(rec, pool, base, rng: random.Random, hid: str, shared: SharedSta
     return fails
 
 
-def run_interleaving(rec, pool, base, rng: random.Random, hid: str) -> List[Tuple[str, str]]:
+def run_interleaving(rec, pool, base, rng: random.Random, hid: str, fixed: Optional[List[int]] = None,
+                     caching: Optional[bool] = None) -> List[Tuple[str, str]]:
+    """Several extract_pages iterators alive at once, advanced in a random order (fixed: these documents, advanced
+    round-robin - every group is driven that way once per run, with caching on and off)."""
     from pdfminer.high_level import extract_pages
 
     fails: List[Tuple[str, str]] = []
-    k = rng.randint(2, 4)
-    idx = [rng.randrange(len(pool)) for _ in range(k)]
+    k = len(fixed) if fixed else rng.randint(2, 4)
+    idx = list(fixed) if fixed else [rng.randrange(len(pool)) for _ in range(k)]
+    if not fixed and rng.random() < 0.5:   # documents of ONE collision group live at the same time
+        g = rng.choice(sorted({d["group"] for d in pool}))
+        same = [i for i, d in enumerate(pool) if d["group"] == g]
+        if len(same) >= 2:
+            idx = [rng.choice(same) for _ in range(k)]
+            idx[:2] = rng.sample(same, 2)
     its = []
     for i in idx:
         d = pool[i]
-        its.append([i, extract_pages(io.BytesIO(d["pdf"]), password=d["password"], caching=rng.random() < 0.6), 0])
+        its.append([i, extract_pages(io.BytesIO(d["pdf"]), password=d["password"], caching=(rng.random() < 0.6) if caching is None else caching), 0])
     live = list(range(k))
     order = []
+    turn = 0
     while live:
-        j = rng.choice(live)
+        j = live[turn % len(live)] if fixed else rng.choice(live)
+        turn += 1
         i, it, pos = its[j]
         try:
             page = next(it)
@@ -685,6 +739,15 @@ def run_shard(spec: Dict[str, Any], rec) -> None:
                     rec.fail("fresh_processes_disagree:%s" % api, {"doc": pool[i]["name"], "api": api},
                              "two fresh processes give different %s output for %s" % (api, pool[i]["name"]))
                 rec.count("baseline_pairs_compared")
+    if spec["sub"] in (1, 2):
+        # every collision group once with all its documents alive at the same time, pages taken in turn
+        for g in sorted({d["group"] for d in pool}):
+            same = [i for i, d in enumerate(pool) if d["group"] == g]
+            if len(same) >= 2:
+                hid = "C12/group/%s/%d" % (g, spec["sub"])
+                for key, detail in run_interleaving(rec, pool, base, random.Random(hid), hid, fixed=same, caching=(spec["sub"] == 1)):
+                    rec.fail(key, {"hid": hid, "group": g, "caching": spec["sub"] == 1}, detail)
+                rec.count("group_round_robins")
     shared = SharedState()
     shared.check(deep=False)
     rng = random.Random("C12/%d/%d" % (spec["seed"], spec["sub"]))
@@ -734,6 +797,9 @@ def replay(case: Dict[str, Any]) -> List[Tuple[str, str]]:
     shared = SharedState()
     shared.check(deep=False)
     out: List[Tuple[str, str]] = []
+    if "group" in case:
+        same = [i for i, d in enumerate(pool) if d["group"] == case["group"]]
+        return run_interleaving(rec, pool, base, random.Random(case["hid"]), case["hid"], fixed=same, caching=case.get("caching", True))
     prefix, h = case["hid"].rsplit("/h", 1)
     # replay the shard's histories up to and including the failing one (history dependence needs the prefix)
     for j in range(int(h) + 1):
